@@ -69,6 +69,7 @@ theorem inLoop_noPanic (m : Mgr) (x : V) (es : List V) : (inLoop m x es).NoPanic
     unfold inLoop
     split
     · exact .ok _
+    · exact .ok _
     · exact ih
     · exact .err _
     · rename_i s h
